@@ -11,6 +11,9 @@
     [None], plus an identity [o_id] (objects need not have distinct names).  detachObject (Refs/Deps
     bookkeeping of removed tables, views, functions) is not represented.
 
+    excludeS follows the repaired code (notes/fixes/C19-exclude-routine-child-pattern.diff): functions and
+    procedures are filtered by two-component patterns only.
+
     Error order: every failing filter returns filepath.ErrBadPattern, so the order in which excludeT runs
     its filters (columns, indexes, fks, triggers, checks) is immaterial for the result; [excludeTX] runs
     the trigger filter after [Exclude.excludeT].
@@ -115,11 +118,13 @@ Definition excludeSX (link : bool * bool) (s : xschema) (glob : list bytes) : er
         match (if exV then loopX v_name excludeV globV gtl (xs_views s) else EOk (xs_views s)) with
         | EErr e => EErr e
         | EOk views =>
-          (* functions and procedures: removed on a name match whatever the length of the glob *)
-          match filter_names typeFn g0 (xs_funcs s) with
+          (* functions and procedures: filtered by a one-element glob only (fix
+             C19-exclude-routine-child-pattern: `exclude && len(glob) == 1`); before the fix the two filters
+             ran whatever the length of the glob: [excludeSX_before_fix] *)
+          match (match gtl with [] => filter_names typeFn g0 (xs_funcs s) | _ :: _ => EOk (xs_funcs s) end) with
           | EErr e => EErr e
           | EOk funcs =>
-            match filter_names typePr g0 (xs_procs s) with
+            match (match gtl with [] => filter_names typePr g0 (xs_procs s) | _ :: _ => EOk (xs_procs s) end) with
             | EErr e => EErr e
             | EOk procs => EOk (mkXS (xs_name s) tabs views funcs procs objs)
             end
@@ -128,6 +133,13 @@ Definition excludeSX (link : bool * bool) (s : xschema) (glob : list bytes) : er
       end
     end
   end.
+
+(** what the function / procedure blocks of excludeS did BEFORE fix C19-exclude-routine-child-pattern: the filter ran
+    for every glob length, so "s.t.c" removed the function / procedure called t *)
+Definition routines_before_fix (ty g0 : bytes) (gtl : list bytes) (l : list str) : eres (list str) :=
+  filter_names ty g0 l.
+Definition routines_after_fix (ty g0 : bytes) (gtl : list bytes) (l : list str) : eres (list str) :=
+  match gtl with [] => filter_names ty g0 l | _ :: _ => EOk l end.
 
 (** the first loop of ExcludeRealm: realm objects, one-element globs only *)
 Fixpoint realmObjects (objs : list object) (globs : list (list bytes)) : eres (list object) :=
